@@ -345,6 +345,9 @@ def streams(ctx):
             # x: a state-preserving conversion; y: rebuilt from FRESH FramedParts carrying both buffers over in the public fields
             toks.insert(rng.randint(0, len(toks)), rng.choice("xy"))
         conv.append(";".join(f[:4] + [",".join(toks)]))
+    # duplex use: reads (chunks, Pendings, an error, EOF from the peer) on the same Framed between the Sink calls
+    for c in pool[:1500 if quick else 30000]:
+        conv.append(c.replace(";", "+r%d;" % rng.randrange(1000), 1))
     # partial writes that leave a remainder in a buffer whose capacity has shrunk (advance) before the conversion
     for big in (8000, 8192, 7500, 9000, 16000):
         for acc in (7168, 7169, 7600, 8000, 8191, 1, 1024):
@@ -357,6 +360,7 @@ def streams(ctx):
                 timeout=300 if quick else 1500,
                 describe="%d cases of the other streams re-run with Framed::from_parts(into_parts()), into_map_io and into_map_codec applied "
                          "before every Sink call, explicit conversions (x) and rebuilds from fresh FramedParts carrying the buffers over (y) between the calls, "
+                         "the Framed also being read between the calls ('+r<seed>': the read half must not touch what is buffered for writing), "
                          "plus large partial writes followed by a conversion; the model is unchanged by construction "
                          "(conversions carry write_buf, read_buf and flags over)" % len(conv))
     return [s1, s2, s3, s4]
